@@ -1,6 +1,8 @@
 /* C04 (platform layer) — the Linux port's getters derive what they supply from the interface record without distortion.
  * The file under proof is os/linux/lltd_port.c itself; only the five getters that do not go through libc / the kernel
- * are within reach (the getifaddrs-based IPv4 / IPv6 getters are listed as unverified). */
+ * need no model; the two getifaddrs-based IPv4 / IPv6 getters are proved against an environment model of getifaddrs (below). */
+#include <ifaddrs.h>
+#include <netinet/in.h>
 #include "os/linux/lltd_port.c"
 #include "v_harness.h"
 #include "v_nocheck_push.h"
@@ -65,5 +67,100 @@ void h_linux_getters(void) {
     } else {
         V_POST("C04.linux-flags-null", fl == 0);
     }
+    V_CANARY("end");
+}
+
+static size_t g_k6;      /* ghost byte index into the IPv6 address */
+
+/* ------------------------------------------------------------------------------------------------------------------
+ * The two getifaddrs-based getters.  Environment model (trusted, E1): getifaddrs yields a list of at most V_IFA_N entries,
+ * each with a name of at most 3 characters, an address family and an address (or none); freeifaddrs releases nothing the
+ * getter may still use.  Contract: the FIRST entry of the right family whose name equals the interface's device name supplies
+ * the address, copied bit for bit (network byte order kept); with no such entry the getter fails and leaves its output
+ * untouched (assumption A3 of the core proofs).  The expected entry is a ghost index computed by the harness by an explicit
+ * scan.  Bounded: lists of at most V_IFA_N entries. */
+#ifndef V_IFA_N
+#define V_IFA_N 3
+#endif
+struct v_ifa_in { char name[4]; uint8_t has_addr; uint16_t family; uint32_t v4; uint8_t v6[16]; };
+static struct v_ifa_in g_ifa_in[V_IFA_N];
+static uint8_t g_ifa_n, g_ifa_fail;
+static int g_exp4, g_exp6;                 /* ghost: index of the entry that must supply the address, -1 = none */
+static struct ifaddrs v_ifa_nodes[V_IFA_N];
+static struct sockaddr_in v_sin[V_IFA_N];
+static struct sockaddr_in6 v_sin6[V_IFA_N];
+static struct sockaddr v_sother[V_IFA_N];
+
+/* the list is built by the harness before the getters run (the model must not write anything inside a function under contract) */
+static void v_ifa_build(void) {
+    for (int i = 0; i < V_IFA_N; i++) {
+        v_ifa_nodes[i].ifa_name = g_ifa_in[i].name;
+        v_ifa_nodes[i].ifa_next = (i + 1 < g_ifa_n) ? &v_ifa_nodes[i + 1] : (struct ifaddrs *)0;
+        if (!g_ifa_in[i].has_addr) v_ifa_nodes[i].ifa_addr = (struct sockaddr *)0;
+        else if (g_ifa_in[i].family == AF_INET) { v_sin[i].sin_family = AF_INET; v_sin[i].sin_addr.s_addr = g_ifa_in[i].v4; v_ifa_nodes[i].ifa_addr = (struct sockaddr *)&v_sin[i]; }
+        else if (g_ifa_in[i].family == AF_INET6) { v_sin6[i].sin6_family = AF_INET6; for (int k = 0; k < 16; k++) v_sin6[i].sin6_addr.s6_addr[k] = g_ifa_in[i].v6[k]; v_ifa_nodes[i].ifa_addr = (struct sockaddr *)&v_sin6[i]; }
+        else { v_sother[i].sa_family = g_ifa_in[i].family; v_ifa_nodes[i].ifa_addr = &v_sother[i]; }
+    }
+}
+int getifaddrs(struct ifaddrs **out) {
+    if (g_ifa_fail) return -1;
+    *out = g_ifa_n ? &v_ifa_nodes[0] : (struct ifaddrs *)0;
+    return 0;
+}
+void freeifaddrs(struct ifaddrs *p) { (void)p; }
+
+#define V_NAME_EQ(a, b) ((a)[0] == (b)[0] && ((a)[0] == 0 || ((a)[1] == (b)[1] && ((a)[1] == 0 || ((a)[2] == (b)[2] && ((a)[2] == 0 || (a)[3] == (b)[3]))))))
+
+int lltd_port_get_ipv4_address(void *iface_ctx, uint32_t *out_ipv4_be)
+__CPROVER_requires(iface_ctx == NULL || (__CPROVER_r_ok(iface_ctx, sizeof(network_interface_t)) && __CPROVER_r_ok(((const network_interface_t *)iface_ctx)->deviceName, 4) && ((const network_interface_t *)iface_ctx)->deviceName[3] == 0))
+__CPROVER_requires(out_ipv4_be == NULL || __CPROVER_w_ok(out_ipv4_be, sizeof(uint32_t)))
+__CPROVER_assigns(iface_ctx != NULL && out_ipv4_be != NULL: *out_ipv4_be)
+__CPROVER_ensures((iface_ctx == NULL || out_ipv4_be == NULL || g_ifa_fail || g_exp4 < 0)
+                  ? (__CPROVER_return_value != 0 && (out_ipv4_be == NULL || *out_ipv4_be == __CPROVER_old(*out_ipv4_be)))
+                  : (__CPROVER_return_value == 0 && *out_ipv4_be == g_ifa_in[g_exp4].v4)) /*@C04.linux-ipv4*/
+;
+int lltd_port_get_ipv6_address(void *iface_ctx, uint8_t out_ipv6[16])
+__CPROVER_requires(iface_ctx == NULL || (__CPROVER_r_ok(iface_ctx, sizeof(network_interface_t)) && __CPROVER_r_ok(((const network_interface_t *)iface_ctx)->deviceName, 4) && ((const network_interface_t *)iface_ctx)->deviceName[3] == 0))
+__CPROVER_requires(out_ipv6 == NULL || __CPROVER_w_ok(out_ipv6, 16))
+__CPROVER_assigns(iface_ctx != NULL && out_ipv6 != NULL: __CPROVER_object_upto(out_ipv6, 16))
+__CPROVER_ensures((iface_ctx == NULL || out_ipv6 == NULL || g_ifa_fail || g_exp6 < 0)
+                  ? (__CPROVER_return_value != 0 && (out_ipv6 == NULL || out_ipv6[g_k6] == __CPROVER_old(out_ipv6[g_k6])))
+                  : (__CPROVER_return_value == 0 && out_ipv6[g_k6] == g_ifa_in[g_exp6].v6[g_k6])) /*@C04.linux-ipv6*/
+;
+
+struct in_lifa { struct v_ifa_in ifa[V_IFA_N]; uint8_t n, fail; char dev[4]; uint8_t null_ctx, null_out; uint8_t k6; uint32_t out4; uint8_t out6[16]; };
+
+void h_linux_ifaddrs(void) {
+    V_INPUT(h_linux_ifaddrs, struct in_lifa, in);
+    V_ASSUME(in.n <= V_IFA_N && in.k6 < 16 && in.dev[3] == 0);
+    g_k6 = in.k6; g_ifa_n = in.n; g_ifa_fail = in.fail;
+    g_exp4 = -1; g_exp6 = -1;
+    for (int i = V_IFA_N - 1; i >= 0; i--) {
+        g_ifa_in[i] = in.ifa[i];
+        V_ASSUME(g_ifa_in[i].name[3] == 0);
+        if (i < in.n && g_ifa_in[i].has_addr && V_NAME_EQ(in.dev, g_ifa_in[i].name)) {
+            if (g_ifa_in[i].family == AF_INET) g_exp4 = i;
+            if (g_ifa_in[i].family == AF_INET6) g_exp6 = i;
+        }
+    }
+    v_ifa_build();
+    network_interface_t nif;
+    V_ZERO(nif);
+    char *dev = (char *)malloc(4); V_ASSUME(dev != (char *)0);
+    dev[0] = in.dev[0]; dev[1] = in.dev[1]; dev[2] = in.dev[2]; dev[3] = 0;
+    nif.deviceName = dev;
+    void *ctx = in.null_ctx ? (void *)0 : (void *)&nif;
+    uint32_t a4 = in.out4; uint8_t a6[16];
+    for (int k = 0; k < 16; k++) a6[k] = in.out6[k];
+    int r4 = lltd_port_get_ipv4_address(ctx, in.null_out ? (uint32_t *)0 : &a4);
+    int r6 = lltd_port_get_ipv6_address(ctx, in.null_out ? (uint8_t *)0 : a6);
+    bool usable = !in.null_ctx && !in.null_out && !in.fail;
+    V_POST("C04.linux-ipv4: the first IPv4 entry of this interface supplies the address, bit for bit; none -> failure, output untouched",
+           (usable && g_exp4 >= 0) ? (r4 == 0 && a4 == in.ifa[g_exp4].v4) : (r4 != 0 && a4 == in.out4));
+    V_POST("C04.linux-ipv6: the first IPv6 entry of this interface supplies the address, bit for bit; none -> failure, output untouched",
+           (usable && g_exp6 >= 0) ? (r6 == 0 && a6[in.k6] == in.ifa[g_exp6].v6[in.k6]) : (r6 != 0 && a6[in.k6] == in.out6[in.k6]));
+    if (usable && g_exp4 >= 1) { V_CANARY("found4-later"); }
+    if (usable && g_exp6 >= 0) { V_CANARY("found6"); }
+    if (usable && g_exp4 < 0 && in.n == V_IFA_N) { V_CANARY("none4"); }
     V_CANARY("end");
 }
